@@ -90,11 +90,18 @@ func init() {
 		DesignRef: "DESIGN.md §6 C05",
 		Technique: technique,
 	})
-	fmtFiles := []string{"evaluator/common.go", "evaluator/gen.go", "evaluator/c06.go"}
+	fmtFiles := []string{"evaluator/common.go", "evaluator/gen.go", "evaluator/c06.go", "evaluator/c02.go", "evaluator/c04.go", "evaluator/c05.go", "evaluator/c08.go", "evaluator/c09.go"}
+	fmtUnit := func(hs ...Harness) Unit {
+		u := evalUnit(fmtFiles, hs...)
+		u.GenDocs = true
+		return u
+	}
 	register(Check{
 		ID: "C06", Title: "Formatting changes nothing but whitespace", Level: "model_checking",
-		Units: []Unit{evalUnit(fmtFiles,
+		Units: []Unit{fmtUnit(
 			Harness{Fn: "ZZC06Corpus", Quick: p("PROP", 6), Thorough: p("PROP", 6), Expect: []string{"corpus-ok", "witness:end"}},
+			Harness{Fn: "ZZC06Programs", Quick: p("PROP", 6), Thorough: p("PROP", 6), Expect: []string{"programs-ok", "witness:end"}},
+			Harness{Fn: "ZZC06Docs", Quick: p("PROP", 6), Thorough: p("PROP", 6), Expect: []string{"docs-ok", "witness:end"}},
 			Harness{Fn: "ZZC06Gen", Quick: p("PROP", 6, "FD", 1, "FL0", 1, "FL1", 1), Thorough: p("PROP", 6, "FD", 2, "FL0", 1, "FL1", 1), ThoroughBudget: 25 * time.Minute, Expect: []string{"gen-ok", "witness:end"}},
 			Harness{Fn: "ZZC06GenFlat", Quick: p("PROP", 6, "FLAT", 3), Thorough: p("PROP", 6, "FLAT", 4), Expect: []string{"gen-ok", "witness:end"}},
 		)},
@@ -110,8 +117,10 @@ func init() {
 	})
 	register(Check{
 		ID: "C07", Title: "Formatting is canonical and idempotent", Level: "model_checking",
-		Units: []Unit{evalUnit(fmtFiles,
+		Units: []Unit{fmtUnit(
 			Harness{Fn: "ZZC06Corpus", Quick: p("PROP", 7), Thorough: p("PROP", 7), Expect: []string{"corpus-ok", "witness:end"}},
+			Harness{Fn: "ZZC06Programs", Quick: p("PROP", 7), Thorough: p("PROP", 7), Expect: []string{"programs-ok", "witness:end"}},
+			Harness{Fn: "ZZC06Docs", Quick: p("PROP", 7), Thorough: p("PROP", 7), Expect: []string{"docs-ok", "witness:end"}},
 			Harness{Fn: "ZZC06Gen", Quick: p("PROP", 7, "FD", 1, "FL0", 1, "FL1", 1), Thorough: p("PROP", 7, "FD", 2, "FL0", 1, "FL1", 1), ThoroughBudget: 25 * time.Minute, Expect: []string{"gen-ok", "witness:end"}},
 			Harness{Fn: "ZZC06GenFlat", Quick: p("PROP", 7, "FLAT", 3), Thorough: p("PROP", 7, "FLAT", 4), Expect: []string{"gen-ok", "witness:end"}},
 		), mainUnit([]string{"main/c18.go", "main/c18native.go", "main/c07m.go"},
